@@ -13,7 +13,14 @@ def seq_jobs(qmax, tiers, suffix, to):
       Job("c02.put" + suffix, TU, "h_put", replace=LOCKS, defines=d, tiers=tiers, fuc=["myth_queue_put"], timeout=to, mem_gb=12, note=n),
       Job("c02.trypass" + suffix, TU, "h_trypass", replace=LOCKS, defines=d, tiers=tiers, fuc=["myth_queue_trypass"], timeout=to, mem_gb=12, note=n),
     ]
-JOBS = seq_jobs(64, ("quick",), "", 300) + seq_jobs(131072, ("thorough",), ".full", 1800)
+HS = ["myth_wsqueue_rwbarrier/fence_contract", "myth_wsqueue_lock_lock/lock_contract", "myth_wsqueue_lock_unlock/unlock_contract", "env_thieves/env_thieves"]
+JOBS = seq_jobs(64, ("quick",), "", 300) + seq_jobs(131072, ("thorough",), ".full", 1800) + [
+  Job("c02.pop_vs_thieves", "c02_handshake.c", "h_pop_vs_thieves", replace=HS, defines=["-DQMAX=64"], cbmc=["--unwind", "70", "--unwinding-assertions"],
+      fuc=["myth_queue_pop"], timeout=300, tiers=("quick",),
+      note="owner pop against the exact SC model of all concurrent thieves; capacity symbolic in [2,64]"),
+  Job("c02.pop_vs_thieves.full", "c02_handshake.c", "h_pop_vs_thieves", replace=HS, defines=["-DQMAX=4096"], cbmc=["--unwind", "4100", "--unwinding-assertions"],
+      fuc=["myth_queue_pop"], timeout=1800, mem_gb=16, tiers=("thorough",), note="as above, capacity symbolic in [2,4096]"),
+]
 META = {
  "level": "proof",
  "level_text": "Sequential contracts on the real run-queue operations against the abstract view ptr[base..top): length change, position of the new/removed element, preservation of every other element (witness index) also across re-centring, well-formedness, lock protocol; capacity symbolic (64 in the quick tier, the real 131072 in the thorough tier).",
